@@ -50,6 +50,12 @@ FIXED_COMMITS = {"K-catch-pop": "790993c", "K-stale-error-ip-a": "4f459d5", "K-s
 # ---- other properties: (property, id, status, commit, title, scenario dict)
 from sim.props import c09, c15, c12, c01
 OTHER = [
+ ("C15", "K-captured-variable-freed-after-failed-run", "fixed", "260f9f2",
+  "a closure stored in a global over a heap-valued local of a run that then failed read a stack slot the collector no longer traced: use after free in a later snippet (SIGSEGV in checked builds)",
+  {"ir": {"session": [["snip", [["capcrash", 1, "s1", 1]]], ["snip", [["callcap", 1, 2]]]], "sites": 1, "mod_sites": {}}, "faults": {"s1": {"1": "RuntimeError"}}, "force_gc_slice": True}),
+ ("C15", "K-waiting-fibers-left-half-alive", "fixed", "5f57364",
+  "after a run failed inside a fiber, the fibers waiting for it (its chain of callers) stayed neither finished nor callable for ever ('already been called')",
+  {"ir": {"session": [["snip", [["set", 0, 1], ["fiber2", 0, "s1", 2]]], ["snip", [["poke", 3]]]], "sites": 1, "mod_sites": {}}, "faults": {"s1": {"1": "ValueError"}}}),
  ("C15", "K-reset-loses-core-globals", "fixed", "11a684a",
   "after Vm::reset() the globals defined by the core library (Error and its subclasses, StopIter, ...) were gone, so e.g. `.map()` iterators failed with `Undefined variable 'StopIter'`: a reset interpreter was distinguishable from a new one",
   {"ir": {"session": [["reset"], ["snip", [["corelib", 1]]]], "sites": 0, "mod_sites": {}}, "faults": {}}),
